@@ -122,10 +122,15 @@ def evaluate(case):
                     effective["src"] = True  # the sender's own fault handling cancelled the transaction before
                 if side == "dst" and any(x[0] == "fault" and x[1] == "dst" and x[2] in ("CANCEL", "ABANDON") for x in log[:pos]):
                     effective["dst"] = True
-                if effective[side]:
-                    # a second cancellation of a transaction that is already being cancelled (it may be abandoned): only the return value is checked
+                if effective[side] and side == "src":
+                    # a second cancellation of a transaction the sender is already cancelling (it may be abandoned,
+                    # CFDP 4.11.2.2.3): only the return value is checked
                     classes.append("second-cancel")
                     continue
+                if effective[side]:
+                    # receiver: an accepted Cancel.request overrides an earlier cancellation (EOF (cancel), fault): the
+                    # statement's clause applies to every accepted request
+                    classes.append("receiver-cancel-after-earlier-cancellation")
                 effective[side] = True
                 if side == "src":
                     sent = IntervalSet()
@@ -323,6 +328,14 @@ def exhaustive_cases(shard, nshards, tier):
                 c = dict(base)
                 c["inject"] = [["dst", k, "eofcancel", cond]]
                 yield c
+            # crossing cancellations: the EOF (cancel) is followed by a local Cancel.request 1 or 2 calls later
+            for gap in (1, 2):
+                idx += 1
+                if idx % nshards != shard:
+                    continue
+                c = dict(base)
+                c["inject"] = [["dst", k, "eofcancel", "FILESTORE_REJECTION"], ["dst", k + gap, "cancel", True]]
+                yield c
 
 
 @st.composite
@@ -343,7 +356,7 @@ def sampled_case(draw):
     if draw(st.integers(0, 3)) == 0:
         case["pacing"] = draw(S.pacing_scripts(max_len=20))
     if f is not None and draw(st.integers(0, 3)) == 0:
-        case["dest_kind"] = draw(st.sampled_from(["dir", "existing"]))
+        case["dest_kind"] = draw(st.sampled_from(["dir", "existing", "dir_existing"]))
     return case
 
 
